@@ -135,10 +135,10 @@ var vc02Long100b = strings.Repeat("col_", 24) + "zzzz"
 func vc02FieldNames(thorough bool) []string {
 	out := []string{
 		"a", "A b", `a"b`, `a'b`, "a;b", "a--b", "a/*b", `a\b`, "a\x00b", "a\xffb", vc02Long64, vc02Long100, vc02Long100b,
-		"select", "a.b", "é", "NaN", "Inf", `";--`, `a" OR "1"="1`,
+		"select", "a.b", "é", "NaN", "Inf", `";--`, `a" OR "1"="1`, "1",
 	}
 	if thorough {
-		out = append(out, `a""b`, `a\`, "a?", "a*", "1", "-Inf", "a\nb", "a)b", "a(b", `a\"b`, "$1", "a?b", "\xc3", "日本", strings.Repeat("é", 40), "t.a", `"`, `'`, "*/", "a b;DROP TABLE t")
+		out = append(out, `a""b`, `a\`, "a?", "a*", "1.5", "-Inf", "a\nb", "a)b", "a(b", `a\"b`, "$1", "a?b", "\xc3", "日本", strings.Repeat("é", 40), "t.a", `"`, `'`, "*/", "a b;DROP TABLE t")
 	}
 	return out
 }
@@ -747,7 +747,7 @@ func vc02Domain(thorough bool, seed int64) (qs []vc02Query, desc string) {
 		}
 		return out
 	}
-	smallF := pick(fields, "a", `a"b`, "a;b", vc02Long100, "NaN")
+	smallF := pick(fields, "a", `a"b`, "a;b", vc02Long100, "NaN", "1")
 	smallV := pick(values, "b", "it's", "x'; DROP TABLE t;--", "NaN", `b\`, "\xff", "b,c", "/*")
 	if thorough {
 		smallF = append(smallF, pick(fields, "A b", `a\b`, "a\x00b", vc02Long100b, "a--b")...)
@@ -794,7 +794,7 @@ func vc02Domain(thorough bool, seed int64) (qs []vc02Query, desc string) {
 		if has("G") {
 			fs, gs = ptrs(fields), ptrs(tinyF)
 			if thorough {
-				fs, gs = ptrs(first(fields)), ptrs(tinyF[:5])
+				fs, gs = ptrs(first(fields)), ptrs(tinyF[:6])
 			}
 		}
 		if has("V") {
